@@ -22,6 +22,7 @@ import (
 	"io/fs"
 	"math/rand"
 	"os"
+	"runtime"
 	"sort"
 	"strings"
 	"sync"
@@ -161,6 +162,13 @@ func (e *c13Env) hook(op *doubles.Op) error {
 			if i, ext := e.nameIndexOfKey(op.Key); i >= 0 && ext == ".key" {
 				e.hold(th, "load")
 			}
+		case "Exists":
+			// the storage existence check of handshakeMaintenance's renewIfNecessary (not the ones inside
+			// ObtainCertAsync / renewCert): a handshake held here has picked its certificate from the
+			// cache already and enters the obtain-map section only when released
+			if i, ext := e.nameIndexOfKey(op.Key); i >= 0 && ext == ".crt" && c13InMaintenanceExists() {
+				e.hold(th, "exists")
+			}
 		case "IssueStart":
 			if out := e.hold(th, "issue"); out.fail {
 				return certmagic.ErrNoRetry{Err: errors.New("issuer double: refused")}
@@ -173,6 +181,27 @@ func (e *c13Env) hook(op *doubles.Op) error {
 		}
 	}
 	return nil
+}
+
+// c13InMaintenanceExists: the caller of storageHasCertResourcesAnyIssuer is the renewIfNecessary
+// closure of handshakeMaintenance.
+func c13InMaintenanceExists() bool {
+	pcs := make([]uintptr, 32)
+	n := runtime.Callers(2, pcs)
+	frames := runtime.CallersFrames(pcs[:n])
+	seen := false
+	for {
+		f, more := frames.Next()
+		if seen {
+			return strings.Contains(f.Function, "certmagic.(*Config).handshakeMaintenance")
+		}
+		if strings.HasSuffix(f.Function, "certmagic.(*Config).storageHasCertResourcesAnyIssuer") {
+			seen = true
+		}
+		if !more {
+			return false
+		}
+	}
 }
 
 func (e *c13Env) decision(ctx context.Context, name string) error {
@@ -487,7 +516,7 @@ func (e *c13Env) shutdown() {
 // ---------------------------------------------------------------- one case
 
 var c13PosCode = map[string]int{"at-decision": 0, "at-load": 1, "at-issue": 2, "wait-load": 3, "wait-obtain": 4, "wait-renew": 5,
-	"done-empty": 7, "done-err": 8, "exited": 9, "blocked-lock": 10, "running": 10}
+	"done-empty": 7, "done-err": 8, "exited": 9, "blocked-lock": 10, "running": 10, "at-exists": 11}
 
 type c13Seen struct {
 	Action c13Action `json:"action"`
@@ -712,7 +741,7 @@ func c13RunCase(w *emit.Writer, cs *c13Case, desc map[string]any) error {
 					case "decision":
 						acts = append(acts, c13Action{Kind: "release", T: th.tid, Allow: &yes}, c13Action{Kind: "release", T: th.tid, Allow: &yes},
 							c13Action{Kind: "release", T: th.tid, Allow: &yes}, c13Action{Kind: "release", T: th.tid, Allow: &no})
-					case "load":
+					case "load", "exists":
 						acts = append(acts, c13Action{Kind: "release", T: th.tid}, c13Action{Kind: "release", T: th.tid})
 					case "issue":
 						acts = append(acts, c13Action{Kind: "release", T: th.tid, Outcome: "ok"}, c13Action{Kind: "release", T: th.tid, Outcome: "ok"},
@@ -834,7 +863,7 @@ func c13Run(tier string, seed int64, outdir string, replay string) error {
 	}
 	// ---- corpus: the witness of the fixed finding C13-load-owner-self-wait (and variants) ----
 	yes, no := true, false
-	witness := []c13Action{{Kind: "arrive", T: 0}, {Kind: "arrive", T: 1}, {Kind: "release", T: 0, Allow: &no},
+	witness := []c13Action{{Kind: "arrive", T: 0}, {Kind: "arrive", T: 1}, {Kind: "release", T: 0}, {Kind: "release", T: 1}, {Kind: "release", T: 0, Allow: &no},
 		{Kind: "arrive", T: 2}, {Kind: "release", T: 1, Allow: &yes}, {Kind: "release", T: 2, Allow: &yes},
 		{Kind: "release", T: 2}, {Kind: "arrive", T: 3}, {Kind: "release", T: 1, Outcome: "fail"}}
 	for i, out := range []string{"fail", "cancel"} {
@@ -857,7 +886,8 @@ func c13Run(tier string, seed int64, outdir string, replay string) error {
 		{{Kind: "release", T: 0, Allow: &yes}, {Kind: "release", T: 0}, {Kind: "release", T: 0, Outcome: "fail"}},
 		{{Kind: "release", T: 0, Allow: &yes}, {Kind: "release", T: 0}, {Kind: "release", T: 0, Outcome: "cancel"}},
 	} {
-		acts := []c13Action{{Kind: "arrive", T: 0}, {Kind: "release", T: 0, Allow: &yes}, {Kind: "release", T: 0}, {Kind: "arrive", T: 1}}
+		acts := []c13Action{{Kind: "arrive", T: 0}, {Kind: "release", T: 0, Allow: &yes}, {Kind: "release", T: 0}, {Kind: "release", T: 0},
+			{Kind: "arrive", T: 1}, {Kind: "release", T: 1}}
 		acts = append(acts, end...)
 		cs := &c13Case{Scenario: "stored-expired", Threads: 3, Seed: int64(200 + i), Actions: acts}
 		if err := c13RunCase(w, cs, map[string]any{"class": "maintenance-failure-obtain", "scenario": cs.Scenario, "variant": i}); err != nil {
@@ -870,10 +900,26 @@ func c13Run(tier string, seed int64, outdir string, replay string) error {
 	// worker is then held at its read of the new bundle (loadCertFromStorage) BEFORE it may release: at
 	// that rest point the waiters must still be waiting, afterwards they must have the new certificate.
 	{
-		acts := []c13Action{{Kind: "arrive", T: 0}, {Kind: "release", T: 0, Allow: &yes}, {Kind: "arrive", T: 1}, {Kind: "release", T: 1, Allow: &yes},
-			{Kind: "arrive", T: 2}, {Kind: "release", T: 2, Allow: &yes}, {Kind: "release", T: 0, Outcome: "ok"}, {Kind: "release", T: 0}}
+		acts := []c13Action{{Kind: "arrive", T: 0}, {Kind: "release", T: 0}, {Kind: "release", T: 0, Allow: &yes},
+			{Kind: "arrive", T: 1}, {Kind: "release", T: 1}, {Kind: "release", T: 1, Allow: &yes},
+			{Kind: "arrive", T: 2}, {Kind: "release", T: 2}, {Kind: "release", T: 2, Allow: &yes}, {Kind: "release", T: 0, Outcome: "ok"}, {Kind: "release", T: 0}}
 		cs := &c13Case{Scenario: "cached-expired-nostore", Threads: 3, Seed: 400, Actions: acts}
 		if err := c13RunCase(w, cs, map[string]any{"class": "waiters-of-successful-obtain", "scenario": cs.Scenario}); err != nil {
+			return err
+		}
+	}
+	// ---- corpus: the issuer is asked once per renewal ----
+	// cached due certificate: handshakes 0 and 1 both pick it from the cache and are held at the storage
+	// existence check of their maintenance; 0 goes on, starts the background renewal (goroutine 2), which
+	// completes (issuer ok, reload, release); only then 1 goes on with the OLD certificate still in hand:
+	// it finds the obtain map free and becomes a second worker (goroutine 3), whose renewCert finds the
+	// bundle in storage no longer due (force = false) and reloads: no second Issue.
+	{
+		acts := []c13Action{{Kind: "arrive", T: 0}, {Kind: "arrive", T: 1}, {Kind: "release", T: 0},
+			{Kind: "release", T: 2, Allow: &yes}, {Kind: "release", T: 2}, {Kind: "release", T: 2, Outcome: "ok"}, {Kind: "release", T: 2},
+			{Kind: "release", T: 1}, {Kind: "release", T: 3, Allow: &yes}, {Kind: "release", T: 3}, {Kind: "release", T: 3}}
+		cs := &c13Case{Scenario: "cached-due", Threads: 3, Seed: 600, Actions: acts}
+		if err := c13RunCase(w, cs, map[string]any{"class": "second-worker-after-renewal", "scenario": cs.Scenario}); err != nil {
 			return err
 		}
 	}
@@ -896,7 +942,7 @@ func c13Run(tier string, seed int64, outdir string, replay string) error {
 	// which the third handshake is already at the issuer when handshake 1 re-enters is finer than the
 	// gates of this harness; the model covers it.)
 	for i, out := range []string{"fail", "cancel"} {
-		acts := []c13Action{{Kind: "arrive", T: 0}, {Kind: "arrive", T: 1}, {Kind: "release", T: 0, Allow: &yes},
+		acts := []c13Action{{Kind: "arrive", T: 0}, {Kind: "release", T: 0}, {Kind: "arrive", T: 1}, {Kind: "release", T: 1}, {Kind: "release", T: 0, Allow: &yes},
 			{Kind: "release", T: 0}, {Kind: "release", T: 0, Outcome: out}, {Kind: "arrive", T: 2}}
 		cs := &c13Case{Scenario: "cached-expired", Threads: 3, Seed: int64(300 + i), Actions: acts}
 		if err := c13RunCase(w, cs, map[string]any{"class": "expired-served-after-failed-renewal", "scenario": cs.Scenario, "outcome": out}); err != nil {
